@@ -62,6 +62,43 @@ func verifC20NativeTool(stdout string, exit int) (*externalCommand, func() (int,
 // for a while and counts how many instances are alive at once: 3 files with
 // NumCPU run: steps each. Observed: the bound, every process finished before
 // LintFiles returns, no hang.
+// verifC10NativeRaces: real LintFiles under the race detector (the driver runs this
+// case with `go test -race`): 4 files x 8 run steps, a stand-in shellcheck that
+// reports one issue per script so that the callbacks append diagnostics.
+func verifC10NativeRaces() {
+	tmp, err := os.MkdirTemp("", "verif-c10r-")
+	if err != nil {
+		panic(err)
+	}
+	defer os.RemoveAll(tmp)
+	must := func(err error) {
+		if err != nil {
+			panic(err)
+		}
+	}
+	must(os.MkdirAll(filepath.Join(tmp, "r", ".github", "workflows"), 0o755))
+	must(os.MkdirAll(filepath.Join(tmp, "r", ".git"), 0o755))
+	must(os.WriteFile(filepath.Join(tmp, "r", ".github", "actionlint.yaml"), []byte("config-variables:\n  - zeta\n  - alpha\n"), 0o644))
+	tool := filepath.Join(tmp, "tool.sh")
+	must(os.WriteFile(tool, []byte("#!/bin/sh\ncat >/dev/null\necho '[{\"file\":\"-\",\"line\":1,\"column\":1,\"level\":\"warning\",\"code\":2000,\"message\":\"m\"}]'\n"), 0o755))
+	pytool := filepath.Join(tmp, "pytool.sh")
+	must(os.WriteFile(pytool, []byte("#!/bin/sh\ncat >/dev/null\necho '<stdin>:1:1 m'\n"), 0o755))
+	var args []string
+	for f := 0; f < 4; f++ {
+		p := filepath.Join(tmp, "r", ".github", "workflows", "w"+strconv.Itoa(f)+".yml")
+		must(os.WriteFile(p, []byte(verifC20SchedWorkflow(8)), 0o644))
+		args = append(args, p)
+	}
+	for rep := 0; rep < 5; rep++ {
+		l, err := NewLinter(io.Discard, &LinterOptions{Shellcheck: tool, Pyflakes: pytool})
+		must(err)
+		_, err = l.LintFiles(args, nil)
+		verifCheck(err == nil, "lint-failed")
+	}
+	verifReach("linted")
+	verifReach("race-analysis-done")
+}
+
 func verifC20NativeSchedule() {
 	tmp, err := os.MkdirTemp("", "verif-c20s-")
 	if err != nil {
